@@ -197,6 +197,46 @@ example : Prog.WellScoped (([⟨3, some 1, 7⟩, ⟨5, some 1, 2⟩] : List (Rec
 example : DivOK (([⟨3, some 1, 7⟩, ⟨5, some 1, 2⟩] : List (Rec R)).map
     (fun _ => (Instr.var : Instr R)) ++ [.arith .mul 0 1, .real .sin 2]) := Or.inl rfl
 
+/-- **Reset WITHOUT a clear, or of a subset, also gives true partial derivatives.**  On any
+    well-formed tape (e.g. one that still holds earlier computations: `reset` without `clear`, a
+    second `reset`, resetting only some records) resetting the records `rs` in some order and then
+    running any program `p` is literally running `var, …, var, p` from that tape: the reset records
+    are new, independent inputs at the next unused positions, C04's conclusion holds for them and
+    for every result, and the derivative vector has one entry per entry of the *whole* tape. -/
+theorem reset_true_derivatives (w : World R) (t : Nat) (hw : Tape.WF (w t)) (rs : List (Rec R))
+    (hrs : ∀ r ∈ rs, r.history = some t) (p : Prog R) (env : Nat → R)
+    (henv : ∀ j (hj : j < rs.length), env j = (rs[j]).number)
+    (hp : Prog.WellScoped ((rs.map fun _ => (Instr.var : Instr R)) ++ p))
+    (hd : DivOK ((rs.map fun _ => (Instr.var : Instr R)) ++ p)) :
+    let live := resetAll rs w
+    let q : Prog R := (rs.map fun _ => (Instr.var : Instr R)) ++ p
+    Prog.execFrom t env p live.2 live.1 = Prog.exec t env q w ∧
+    ∃ w' recs, Prog.execFrom t env p live.2 live.1 = (w', .ok recs) ∧ recs.length = q.length ∧
+      ∀ k, k < q.length →
+        match (getRec recs k).history with
+        | none => (getRec recs k).derivatives w' = .panic .explicit ∧
+            ∀ i, (Prog.grad env q i).getD k 0 = 0
+        | some _ =>
+          ∃ adj, (getRec recs k).derivatives w' = .ok adj ∧ adj.length = (w' t).length ∧
+            ∀ i, q.isInput i = true →
+              adj.getD (getRec recs i).index 0 = (Prog.grad env q i).getD k 0 := by
+  intro live q
+  have hEq : Prog.execFrom t env p live.2 live.1 = Prog.exec t env q w := by
+    simp only [live, q, Prog.exec]
+    rw [resetAll_eq_mkVars rs t hrs, execFrom_append]
+    have := mkVars_eq_exec t env (rs.map (·.number)) w []
+      (by intro j hj; simp only [List.length_map] at hj; simpa using henv j hj)
+    simp only [List.map_map, Function.comp_def, List.nil_append] at this
+    rw [this]
+  refine ⟨hEq, ?_⟩
+  rw [hEq]
+  exact C04.reverse_eq_grad q hp hd t env w hw
+
+example : Tape.WF ([⟨0, 0, 0, 0⟩, ⟨0, 1, 5, 0⟩] : Tape R) := by
+  intro i hi
+  have : i = 0 ∨ i = 1 := by simp at hi; omega
+  rcases this with rfl | rfl <;> simp
+
 /-- **A cloned `WengertList` is an independent copy.**  `clone()` makes a new tape `dst` with the
     entries of `src` and changes no other tape; a record carried over with
     `Record::from_existing((number, index), &copy)` has the derivatives it had on the original;
